@@ -99,6 +99,7 @@ class Path:
         self.timeout_ms = timeout_ms
         self.pc = []
         self.nchecks = 0
+        self.prefer = "z3"
 
     # ---- path condition
     def assume(self, c, check=True):
@@ -192,33 +193,51 @@ class Path:
         if z3.is_true(g):
             self.results.record(Ob(name, "unsat", detail, ms=0.0))
             return True
-        self.solver.push()
-        self.solver.add(z3.Not(g))
-        r = self.solver.check()
-        ms = (time.time() - t0) * 1000
+        from .solver2 import cvc5_check
+        r = None
         model = None
-        if r == z3.sat:
-            model = model_to_dict(self.solver.model())
-        self.solver.pop()
+        backend = "z3"
+        order = ["cvc5", "z3"] if self.prefer == "cvc5" else ["z3-short", "cvc5", "z3"]
+        for be in order:
+            if be == "cvc5":
+                r2 = cvc5_check(self.pc + [z3.Not(g)], self.timeout_ms)
+                if r2 in ("sat", "unsat"):
+                    r = z3.sat if r2 == "sat" else z3.unsat
+                    backend = "cvc5"
+                    if r == z3.sat:
+                        # ask z3 for a model of the same query (best effort, short)
+                        self.solver.push()
+                        self.solver.add(z3.Not(g))
+                        self.solver.set("timeout", 2000)
+                        if self.solver.check() == z3.sat:
+                            model = model_to_dict(self.solver.model())
+                        self.solver.set("timeout", self.timeout_ms)
+                        self.solver.pop()
+                    break
+            else:
+                self.solver.push()
+                self.solver.add(z3.Not(g))
+                if be == "z3-short":
+                    self.solver.set("timeout", min(1500, self.timeout_ms))
+                r = self.solver.check()
+                if r == z3.sat:
+                    model = model_to_dict(self.solver.model())
+                reason = self.solver.reason_unknown() if r == z3.unknown else ""
+                self.solver.set("timeout", self.timeout_ms)
+                self.solver.pop()
+                if r != z3.unknown:
+                    backend = "z3"
+                    break
+        ms = (time.time() - t0) * 1000
         if r == z3.unsat:
-            self.results.record(Ob(name, "unsat", detail, ms=ms))
+            self.results.record(Ob(name, "unsat", detail, ms=ms, backend=backend))
             ok = True
         elif r == z3.sat:
-            self.results.record(Ob(name, "sat", detail, model=model, ms=ms))
+            self.results.record(Ob(name, "sat", detail, model=model or {}, ms=ms, backend=backend))
             ok = False
         else:
-            # second opinion: cvc5 on the same query
-            from .solver2 import cvc5_check
-            r2 = cvc5_check(self.pc + [z3.Not(g)], self.timeout_ms)
-            if r2 == "unsat":
-                self.results.record(Ob(name, "unsat", detail, ms=ms, backend="cvc5"))
-                ok = True
-            elif r2 == "sat":
-                self.results.record(Ob(name, "sat", detail + " (cvc5)", model={}, ms=ms, backend="cvc5"))
-                ok = False
-            else:
-                self.results.record(Ob(name, "unknown", detail + " reason=" + self.solver.reason_unknown(), ms=ms))
-                ok = False
+            self.results.record(Ob(name, "unknown", detail + " reason=" + reason, ms=ms))
+            ok = False
         # continue under the goal (standard: assert-then-assume)
         try:
             self.assume(g, check=True)
@@ -242,13 +261,14 @@ class Path:
         return None
 
 
-def explore(run, results, timeout_ms=10000, max_paths=200000, deadline=None):
+def explore(run, results, timeout_ms=10000, max_paths=200000, deadline=None, prefer="z3"):
     """Run `run(path)` for every feasible decision trace."""
     work = [[]]
     n = 0
     while work:
         prefix = work.pop()
         p = Path(prefix, results, timeout_ms)
+        p.prefer = prefer
         n += 1
         results.paths += 1
         try:
